@@ -303,15 +303,14 @@ static int split_ident(const char *id, std::string &kind, std::string &name)
 static void emit_csections(const mpt::node *head, count_logger *out, int depth)
 {
 	for (; head; head = head->next) {
-		if (head->_meta || !head->children) {
-			if (head->_meta) continue;      /* an option of the enclosing section */
-		}
+		if (head->_meta) continue;          /* an option of the enclosing section */
 		const char *id = mpt::mpt_node_ident(head);
 		std::string kind, name;
 		split_ident(id, kind, name);
 		mpt::item_group fac;
 		mpt::metatype *mt = fac.create(kind.c_str());
-		mpt::object *o = mt ? static_cast<mpt::object *>(*mt) : 0;
+		if (!mt) continue;                  /* no such item type (also a value-less option of a group) */
+		mpt::object *o = static_cast<mpt::object *>(*mt);
 		int proc = -1;
 		if (o) {
 			proc = mpt::mpt_object_set_nodes(o, mpt::TraverseLeafs | mpt::TraverseChange | mpt::TraverseDefault,
